@@ -204,6 +204,26 @@ func c08(c *ctx) {
 			}
 		}
 	}
+	// rules whose printed form (it is quoted in a comment above the rule's function) is longer than a kilobyte and made
+	// of multi-byte characters, with names one byte longer each: wherever such a text is cut, wrapped or measured in
+	// bytes, one of the twelve has a character straddling the spot
+	{
+		g := &gram.Grammar{}
+		var top []*gram.Expr
+		for i := 0; i < 12; i++ {
+			name := "W" + strings.Repeat("a", i)
+			var kids []*gram.Expr
+			for k := 0; k < 150; k++ {
+				kids = append(kids, gram.Lit(string(rune(0x4E00+(i*150+k)%2000))))
+			}
+			g.Rules = append(g.Rules, &gram.Rule{Name: name, E: gram.Seq(kids...)})
+			top = append(top, gram.Ref(name))
+		}
+		g.Rules = append([]*gram.Rule{{Name: "R0", E: gram.Seq(gram.Alt(top...), gram.Un(gram.KNot, gram.Dot()))}}, g.Rules...)
+		g.Number()
+		cases = append(cases, &c08case{id: len(cases), g: g, kind: "surface-long-rules-of-multi-byte-characters", opts: gram.PrintOpts{State: " N int"}})
+		c.run.Count("grammars_with_kilobyte_rules_of_multi_byte_characters", 1)
+	}
 	// ranges whose bounds are ordinary characters but which span the surrogate block U+D800-U+DFFF (e.g. "all of the
 	// BMP above ASCII"), as a -switch case next to a larger alternative (so that the range is not the default case)
 	for _, sr := range [][4]rune{{0xD7FE, 0xE001, 0xE002, 0xF8FF}, {0x80, 0xFFFF, 0x10000, 0x10FFFF}, {0xD7FF, 0xE000, 0xE001, 0xE900}} {
